@@ -17,7 +17,7 @@ def check_dialogue(inp):
     version, allm, nocol, answers = inp["version"], inp["all_metrics"], inp.get("no_colors", True), inp["answers"]
     ver = interact.verkey(version)
     V = spec.VERS[ver]
-    r = interact.run_builder(version, allm, nocol, answers)
+    r = interact.run_builder(version, allm, nocol, answers, tty=bool(inp.get("tty")))
     want_set = set(V.order if allm else V.mandatory)
     if r["kind"] == "exc":
         return [failure("a vector or EOFError", r["value"], note="exception escaped from the builder")]
@@ -111,6 +111,7 @@ def hyp_part(n_examples, shard):
         V = spec.VERS[ver]
         order = interact.probe_order(version, allm) or list(V.order if allm else V.mandatory)
         answers, meta = draw(interact.script_strategy(version, allm, order))
+        meta["tty"] = draw(st.booleans())
         return version, allm, draw(st.booleans()), answers, meta
 
     @runner.seeded(16, shard)
@@ -125,7 +126,10 @@ def hyp_part(n_examples, shard):
             classes.append("empty-answer")
         if meta["truncated"]:
             classes.append("truncated")
-        inp = {"version": version, "all_metrics": allm, "no_colors": nocol, "answers": answers}
+        inp = {"version": version, "all_metrics": allm, "no_colors": nocol, "answers": answers, "tty": meta["tty"]}
+        classes.append("streams-claim-tty" if meta["tty"] else "streams-not-tty")
+        if meta["tty"] and meta["truncated"]:
+            classes.append("eof-at-tty")
         part.count(inp, nontrivial=bool(meta["retries"] or meta["empties"]), classes=classes)
         part.check("dialogue", check_dialogue, inp, hyp=True)
     runner.run_hyp(part, t, "C16.hyp")
@@ -151,4 +155,4 @@ def run(tier, t0):
     return runner.finish(part, tier, t0, rule,
                          ["asking order is taken from the returned vector (any order is accepted as long as the result is made of the accepted answers); prompts/banners are not asserted",
                           "invalid answers are drawn from ASCII plus a few non-ASCII characters without ASCII case mappings"],
-                         required=["covering", "long-retry", "retry", "empty-answer", "truncated", "all", "mandatory-only"] + ["version=%r" % (v,) for v in interact.VERSIONS])
+                         required=["covering", "long-retry", "eof-at-tty", "streams-claim-tty", "retry", "empty-answer", "truncated", "all", "mandatory-only"] + ["version=%r" % (v,) for v in interact.VERSIONS])
